@@ -1,7 +1,7 @@
 #!/bin/bash
 # for every fix: commit recorded in KNOWN_FINDINGS.txt: does un-doing it on the current tree make the property's check fire again?
 export GOFLAGS=-mod=mod GOPROXY=off GOSUMDB=off GOTOOLCHAIN=local
-cd /verif
+mkdir -p /var/tmp/reverts; cd /verif
 grep '^fixed:' /verif/KNOWN_FINDINGS.txt | while read -r _ props hash rest; do
   props=${props#property=}; h=${hash}
   d=/var/tmp/reverts/revert-$h.diff
